@@ -556,6 +556,27 @@ def pool_f():
     return terms, pairs
 
 
+def pool_r():
+    """RPC pool (C14): for method k, type 2k is the argument tuple and 2k+1 the return type"""
+    S = ('struct', [I('u8'), STR])
+    methods = [
+        ([I('i32'), I('i32')], I('i64')),
+        ([STR], I('u32')),
+        ([vec(I('i32')), STR], vec(STR)),
+        ([], STR),
+        ([S, ('opt', I('i8'))], S),
+        ([('table', 5, [(1, 'a', I('u8')), (2, 'a', vec(STR))])], ('bool',)),
+        ([('variant', [I('i32'), STR])], ('result', 2, 'i32', I('u8'))),
+        ([('map', True, I('u8'), STR)], ('tuple', [I('u8'), STR])),
+        ([('pair', I('u8'), I('i32')), arr(2, I('u16'))], vec(I('u16'))),
+    ]
+    terms = []
+    for (args, ret) in methods:
+        terms.append(('tuple', args))
+        terms.append(ret)
+    return terms
+
+
 if __name__ == '__main__':
     import sys
     name, out = sys.argv[1], sys.argv[2]
@@ -565,6 +586,8 @@ if __name__ == '__main__':
         terms = pool_h()
     elif name in ('x', 'f'):
         terms = []
+    elif name == 'r':
+        terms = pool_r()
     else:
         terms = pool_random(int(sys.argv[3]), int(sys.argv[4]))
     pairs = None
